@@ -44,7 +44,7 @@ PROPS = {
     "C17": dict(engine="store", gen="gen_c17", nops=(2, 6), runs={"quick": 480, "thorough": 9000},
                 level="exploration", faults=True, batch=8),
     "C18": dict(engine="store", gen="gen_c18", nops=(4, 12), runs={"quick": 480, "thorough": 9000},
-                level="exploration", batch=8),
+                level="exploration", batch=8, continue_after_violation=True),
 }
 
 
@@ -153,7 +153,7 @@ def nontrivial(prop, run):
     if prop == "C01":
         return st.get("op:create", 0) > 0
     if prop == "C06":
-        return st.get("op:create", 0) + st.get("op:cliload", 0) > 0
+        return st.get("op:create", 0) + st.get("op:cliload", 0) + st.get("op:clipairs", 0) > 0
     if prop == "C02":
         return st.get("struct-checked", 0) > 0
     if prop == "C07":
